@@ -14,7 +14,7 @@ RULE = (
     "a.value +/- b.value*prod((slope(u_b)/slope(u_a))**E) (rel 1e-9 of |a|+|b'|); (a+b)-b ~ a (Scalars and Arrays), a op b twice on the same operand objects gives the same values; mag(a+b) ~ mag(b+a). "
     "Simple exponent-1 quantities additionally over affine units against a.value +/- Convert(u_b->u_a, b.value); units with an offset also under exponents -2..3 inside derived operands (1/degC + 1/K, psig2, with or without a second factor), where the ratio is the ratio of the unit sizes. "
     "A left operand created directly on a derived quantity that writes one quantity type in two units under two categories (m.km): amount in base units, categories, repeatability and b op a, and the units against the bug model of known finding 30. "
-    "Non-trivial = operands differ in a unit of a shared type and (some |exponent|>=2 or >=2 quantity types); "
+    "Scalar operands may be instances of a Scalar subclass (the other one plain, or of a sibling subclass). Non-trivial = operands differ in a unit of a shared type and (some |exponent|>=2 or >=2 quantity types); "
     "distinct key = (instance a, instance b, op, container)."
 )
 ASSUMPTIONS = ["UnitModel slopes come from single-unit float conversions (validated by C01)", "for a unit with an offset inside a derived quantity the unit ratio is the ratio of the unit sizes (1/degC against 1/K is 1): offsets only apply to exponent-1 single-unit quantities"]
@@ -25,6 +25,35 @@ SHARDS = {"quick": 6, "thorough": 16}
 
 def plan(tier, seed):
     return [{"tier": tier, "seed": seed, "n": N[tier]} for _ in range(SHARDS[tier])]
+
+
+def _subclasses():
+    from barril.units import Scalar
+
+    class SubA(Scalar):
+        pass
+
+    class SubB(Scalar):
+        pass
+
+    return SubA, SubB
+
+
+class _Lazy:
+    """Scalar subclasses created on first use (barril is imported by the shard, not at module import)."""
+
+    def __init__(self, i):
+        self.i = i
+
+    def CreateWithQuantity(self, q, v):
+        global _SUBS
+        if _SUBS is None:
+            _SUBS = _subclasses()
+        return _SUBS[self.i].CreateWithQuantity(q, v)
+
+
+_SUBS = None
+_SubA, _SubB = _Lazy(0), _Lazy(1)
 
 
 class Checker:
@@ -61,8 +90,14 @@ class Checker:
         from barril.units import Scalar
 
         if kind == "scalar":
-            a = Scalar.CreateWithQuantity(qa, va[0])
-            b = Scalar.CreateWithQuantity(qb, vb[0])
+            # (applications subclass Scalar: an operand may be an instance of a subclass, the other one a plain Scalar
+            # or an instance of a sibling subclass)
+            cls_a = {1: _SubA, 2: _SubB}.get(case.get("sub_a", 0), Scalar)
+            cls_b = {1: _SubA, 2: _SubB}.get(case.get("sub_b", 0), Scalar)
+            if cls_a is not cls_b:
+                ctx.cls("operands_of_different_scalar_classes")
+            a = cls_a.CreateWithQuantity(qa, va[0])
+            b = cls_b.CreateWithQuantity(qb, vb[0])
             va, vb = va[:1], vb[:1]
         else:
             # the two operands need not share a container kind, and a numpy operand may hold integers: the other
@@ -81,7 +116,12 @@ class Checker:
             a = Array.CreateWithQuantity(qa, gen.as_container(ka, va))
             b = Array.CreateWithQuantity(qb, gen.as_container(kb, vb))
         op = case["op"]
-        r = a + b if op == "+" else a - b
+        try:
+            r = a + b if op == "+" else a - b
+        except TypeError as e:
+            # (both operands declined: the interpreter raises this one itself, there is no library frame in it)
+            ctx.fail("sum_of_matching_dimensions_raises_TypeError", case, "%r %s %r raised TypeError: %s" % (a, op, b, e))
+            return
         ctx.ev()
         ratio = self.ratio(ua, ub, ta)
         if not (1e-150 < abs(ratio) < 1e150):
@@ -243,6 +283,8 @@ def _strategies(ch):
             "route_b": draw(st.sampled_from(["direct", "arith"])),
             "kind": kind,
             "kind_b": kind if kind == "scalar" else draw(st.sampled_from([kind, kind, "list", "tuple", "ndarray"])),
+            "sub_a": draw(st.sampled_from([0, 0, 1, 2])),
+            "sub_b": draw(st.sampled_from([0, 0, 0, 1])),
             "int_a": draw(st.sampled_from([False, False, True])),
             "int_b": draw(st.sampled_from([False, False, False, True])),
         }
